@@ -530,6 +530,14 @@ def sec_chain_weights(rec, patches=None):
 
     sec_mask(rec, shapes=[(2, 3, 4)], quats=[(F_(1, 2), F_(1, 2), F_(1, 2), F_(1, 2))], axis="y", entry="model", patches=patches)
     sec_weights(rec, shapes=[(3, 2, 5)], orders=(1, 2), patches=patches)
+    # which cut-offs filter at all (identity only outside (0, sqrt(3)/2)), numpy- and backend-level, real- and Fourier-space variants
+    from .c16 import sec_filter
+
+    sec_filter(rec, shapes=[(2, 3, 4)], patches=patches)
+    # the landscape the models expose is the one alignment maximises: NCC landscape entries <-> lags on symbolic voxels incl. the padding value (C04's section)
+    from .c04 import sec_semantics
+
+    sec_semantics(rec, kind="ncc", shape=(1, 1, 3), axis=2, mhi=2, patches=patches)
 
 
 def sections(tier):
